@@ -47,6 +47,8 @@ DoAuthorizePending(st, o) ==
 \* any peer that is not the node's own server: foreign roots, a certificate minted for another nonce, no nonce,
 \* wrong extended key usage, self-signed, with or without mimicking the library's ALPN
 RogueKinds == {"foreign", "staleNonce", "noNonce", "wrongEku", "selfSigned", "foreignNoAlpn", "foreignExtraAlpn", "nextRootNotYetValid",
+               "otherDeployment",       \* certificate with the fresh nonce under the root of ANOTHER deployment whose node credentials were
+                                        \* turned into client TLS configurations earlier in the same process (trust is per credentials, not per process)
                "staleNonceExtraCert"}   \* genuine certificate for another nonce + an extra throw-away certificate carrying the fresh nonce
 DoRogue(st, o) == IF st.cert[o.k] \notin Issued THEN Out("skip", st) ELSE Out("error", st)
 \* real time passes until the next root has become valid as well
@@ -85,7 +87,11 @@ DoReinit(st) == Out("ok", [st EXCEPT !.cert = [k \in CertKeys |-> Kill(st.cert[k
 (*  ck   : identity whose certificate chain is presented                   *)
 (*  chain: b0 (chain from the root that was current at issuance) | b1 (from *)
 (*         the root that was next at issuance) | foreign | self |          *)
-(*         selfNoSan (self-signed, no subject alternative names)           *)
+(*         selfNoSan (self-signed, no subject alternative names) |         *)
+(*         leadOwn (a throwaway self-signed certificate for a key the      *)
+(*         client holds, FOLLOWED by ck's genuine b0 chain: TLS proves     *)
+(*         possession of the first certificate's key only, so this is a    *)
+(*         client without ck's key whatever else it sends along)           *)
 (*  priv : the client holds ck's private key                               *)
 (*  nsig : who signed the nonce;  stt: client state none | ok (signed by   *)
 (*         nsig) | forged (signed by kx) | unsigned                        *)
@@ -155,7 +161,7 @@ Apply(st, o) ==
     [] o.op = "Malformed" -> DoMalformed(st, o)
 
 (* universes *)
-AuthClients == [op : {"Connect"}, kind : {"auth"}, k : CertKeys, ck : CertKeys, chain : {"b0", "b1", "foreign", "self", "selfNoSan"},
+AuthClients == [op : {"Connect"}, kind : {"auth"}, k : CertKeys, ck : CertKeys, chain : {"b0", "b1", "foreign", "self", "selfNoSan", "leadOwn"},
                 priv : BOOLEAN, nsig : Signers, stt : {NONE, "ok", "forged", "unsigned"}, skip : BOOLEAN,
                 nid : {NONE, "own", "other", "bogus"}, pref : {"cur", "next", "garbage", NONE}, cn : BOOLEAN]
 MixedClients == {[c EXCEPT !.kind = m] : c \in {x \in AuthClients : ~x.cn /\ x.pref = "cur" /\ x.nid = NONE /\ x.stt = NONE},
